@@ -157,7 +157,8 @@ class Main(Part):
                 "thorough": dict(examples=5000, shards=16, seconds=600)}[tier]
 
     def strategy(self, tier):
-        return gen.corpus_case(max_extent=3)
+        return gen.corpus_case(max_extent=3, families=("plain", "plain", "shape", "shape", "occ", "flat", "affine", "affine", "cascade",
+                                                       "conv2p"))
 
     def describe(self, case):
         return {"yaml": S.to_yaml(case["spec"]), "mode": case.get("mode")}
